@@ -49,8 +49,10 @@ func (vestingInfo VestingInfo) Validate() error {
 	if vestingInfo.NumMaxVestings < 0 {
 		return fmt.Errorf("num_max_vestings cannot be negative")
 	}
-	if vestingInfo.NumBlocks < 0 {
-		return fmt.Errorf("num_blocks cannot be negative")
+	// the vested amount is Total * elapsed / NumBlocks: zero would divide by zero in every claim,
+	// including the provider-rewards claim that runs in BeginBlock
+	if vestingInfo.NumBlocks <= 0 {
+		return fmt.Errorf("num_blocks cannot be negative or zero")
 	}
 	if vestingInfo.VestNowFactor.IsNil() {
 		return fmt.Errorf("vesting now factor cannot be nil")
